@@ -482,7 +482,7 @@ pub fn build_chain(spec: &ChainSpec) -> Option<Built> {
             };
             let parent = candidates[pick_index(p.link, candidates.len())];
             let epoch = spec.start_epoch + off as u64;
-            let index_in_epoch = same.len() + if off == 0 { 0 } else { 0 };
+            let index_in_epoch = same.len();
             let c = standard_certificate(
                 epoch,
                 &world_at(off),
